@@ -327,6 +327,7 @@ impl Prop for C19 {
             restart: 5,
             check: 8,
             hold_parent_syncs: 3,
+            heal: 9,
             max_advance: 3 * 86400,
             ..Weights::default()
         };
@@ -335,7 +336,51 @@ impl Prop for C19 {
             c.suspend_hours = s;
             c
         });
-        wcase_strategy(cfg.boxed(), w, 5, ops)
+        // episodes: an exchange partner is broken on purpose, the failure is looked at, the operator
+        // repairs it, and the status is looked at again (kind, edge or CA selector, position, gaps)
+        let episodes = proptest::collection::vec((0u8..4, any::<u16>(), any::<u16>(), any::<u16>()), 0..3);
+        (wcase_strategy(cfg.boxed(), w, 5, ops), episodes)
+            .prop_map(|(mut case, episodes)| {
+                let edges: Vec<(u8, u8)> = case
+                    .setup
+                    .iter()
+                    .filter_map(|o| match o {
+                        Op::Attach { ca, parent, .. } if *parent != 0 => Some((*parent, *ca)),
+                        _ => None,
+                    })
+                    .collect();
+                let n_cas = case.setup.iter().filter(|o| matches!(o, Op::CaAdd { .. })).count().max(1);
+                for (kind, sel, pos, gaps) in episodes {
+                    let ca = (sel as usize * n_cas >> 16) as u8;
+                    let something_to_publish = Op::Roa { ca, add: vec![crate::ops::RoaSpec { asn_i: (sel % 8) as u8, pfx_i: (sel % 20) as u8, ml: 0, comment: 0 }], remove: vec![] };
+                    let seq: Vec<Op> = if edges.is_empty() || kind == 0 {
+                        vec![Op::PublisherRemove { ca }, something_to_publish, Op::Check, Op::PublisherReadd { ca }, Op::Check]
+                    } else {
+                        let (parent, child) = edges[sel as usize * edges.len() >> 16];
+                        match kind {
+                            1 => vec![Op::ChildRemove { parent, child }, Op::Check, Op::ChildReadd { parent, child, res: sel & 0x7fff | 1 }, Op::Check],
+                            2 => vec![Op::UpdateId { ca: child }, Op::Check, Op::ChildIdSync { parent, child }, Op::Check],
+                            _ => vec![
+                                Op::UpdateId { ca: child },
+                                Op::Check,
+                                Op::PublisherRemove { ca: child },
+                                Op::ChildIdSync { parent, child },
+                                Op::PublisherReadd { ca: child },
+                                Op::Check,
+                            ],
+                        }
+                    };
+                    let mut at = pos as usize * (case.ops.len() + 1) >> 16;
+                    for (k, op) in seq.into_iter().enumerate() {
+                        if k > 0 {
+                            at += 1 + ((gaps >> (2 * k.min(7))) & 3) as usize * (k % 2);
+                        }
+                        at = at.min(case.ops.len());
+                        case.ops.insert(at, op);
+                    }
+                }
+                case
+            })
             .prop_map(|mut case| {
                 // where children can be suspended for inactivity, a silent period followed by a restart
                 // is part of most histories (placed by the generated key-pool offset, which is arbitrary)
@@ -410,7 +455,7 @@ impl Prop for C19 {
                 if stats.restart_after_failure > 0 {
                     classes.push("restart_after_failure".into());
                 }
-                for k in ["publisher_removed", "publisher_readded", "child_removed", "parent_removed", "ca_deleted", "restart", "child_suspended", "restart_with_child_suspended_for_inactivity"] {
+                for k in ["publisher_removed", "publisher_readded", "child_removed", "parent_removed", "ca_deleted", "restart", "child_suspended", "restart_with_child_suspended_for_inactivity", "child_readded", "child_id_synced"] {
                     if sim.flags.has(k) {
                         classes.push(k.to_string());
                     }
